@@ -21,7 +21,7 @@ Hdr  == 5
 MonInit == [viol |-> {}, cfg |-> RealCfg,
             msgs |-> <<>>,        \* msg -> [src, mid, total, plen, last]  last[i+1] = time of the latest delivery of chunk i, -1 never
             pend |-> <<>>,        \* <<src, mid>> -> [msg, total, clean, tLo, tHi, got, clash]: reassembly entries that MAY exist
-            mids |-> <<>>,        \* message IDs of the previous writes of the sending socket
+            mids |-> <<>>,        \* sending socket -> message IDs of its previous writes
             dirtyUntil |-> -1]    \* after a flood nothing is certain about the table until then
 
 Upd(f, k, v) == [x \in (DOMAIN f) \cup {k} |-> IF x = k THEN v ELSE f[x]]
@@ -34,7 +34,8 @@ WriteStep(m, e, ln) ==
       shapeOk == Len(e.sizes) = e.nd /\ Len(e.clens) = e.nd /\ Len(e.pads) = e.nd
                  /\ Len(e.idxs) = e.nd /\ Len(e.tots) = e.nd /\ Len(e.mids) = e.nd
       mid == IF e.nd >= 1 /\ shapeOk THEN e.mids[1] ELSE -1
-      recent == SubSeq(m.mids, Max2(1, Len(m.mids) - 6), Len(m.mids))          \* the previous 7 writes
+      prev == IF e.c \in DOMAIN m.mids THEN m.mids[e.c] ELSE <<>>                \* IDs used by this socket so far
+      recent == SubSeq(prev, Max2(1, Len(prev) - 6), Len(prev))                  \* the previous 7 writes
       cs == e.plen \div Max2(e.nd, 1)
   IN IF ~e.long THEN
        [m EXCEPT !.viol = VAll(m.viol, e, ln,
@@ -42,7 +43,7 @@ WriteStep(m, e, ln) ==
                                \/ (shapeOk /\ e.nd = 1 /\ e.sizes[1] # Salt + e.plen)>> >>)]
      ELSE
        [m EXCEPT
-         !.mids = IF mid >= 0 THEN Append(m.mids, mid) ELSE m.mids,
+         !.mids = IF mid >= 0 THEN Upd(m.mids, e.c, Append(prev, mid)) ELSE m.mids,
          !.viol = VAll(m.viol, e, ln,
           << <<"Lossless", ~e.errNil \/ e.n # e.plen \/ ~shapeOk \/ ~e.hdrOk \/ ~e.concatOk
                             \/ e.nd < 2 \/ e.nd > 8
@@ -53,7 +54,7 @@ WriteStep(m, e, ln) ==
              <<"SizeRange", shapeOk /\ \E i \in I : Salt + Hdr + e.clens[i] <= e.max
                                                      /\ (e.sizes[i] < e.min \/ e.sizes[i] > e.max)>>,
              <<"MsgIdFresh", mid >= 0 /\ \E j \in 1..Len(recent) : recent[j] = mid>>,
-             <<"DRIFT_MsgIdSeq", mid >= 0 /\ Len(m.mids) > 0 /\ mid # (m.mids[Len(m.mids)] + 1) % 256>>,
+             <<"DRIFT_MsgIdSeq", mid >= 0 /\ Len(prev) > 0 /\ mid # (prev[Len(prev)] + 1) % 256>>,
              <<"DRIFT_Pad", shapeOk /\ \E i \in I : Salt + Hdr + e.clens[i] > e.max /\ e.pads[i] # 0>>,
              <<"DRIFT_ChunkSizes", shapeOk /\ e.nd >= 2 /\ \E i \in I :
                                      e.clens[i] # (IF e.idxs[i] = e.nd - 1 THEN e.plen - (e.nd - 1) * cs ELSE cs)>> >>)]
